@@ -341,6 +341,7 @@ package keeper
 //@   ensures source: found ==> has(requests, requestID) && request.Provider == get(requests, requestID).Provider && bechok(request.Provider)
 //@                       && request.ServiceFee == get(requests, requestID).ServiceFee && request.ExpirationHeight == get(requests, requestID).ExpirationHeight
 //@   ensures absent: !has(requests, requestID) ==> !found
+//@   ensures zero_when_absent: !found ==> request.Consumer == "" && request.Provider == "" && (forall d:Str :: amt(request.ServiceFee, d) == 0)
 //@   ensures context: found ==> ufb("hex_ok", get(requests, requestID).RequestContextId) && has(contexts, unhex(get(requests, requestID).RequestContextId))
 //@                       && request.ServiceName == CTX(unhex(get(requests, requestID).RequestContextId)).ServiceName
 //@                       && request.Consumer == CTX(unhex(get(requests, requestID).RequestContextId)).Consumer
@@ -611,6 +612,34 @@ package keeper
 //@   ensures others:   forall s:Str :: forall p:Bytes :: (s != serviceName || p != provider) ==> has(bindings, s, p) == old(has(bindings, s, p)) && BIND(s, p) == old(BIND(s, p))
 //@   lemma @return depUpd(old(bindings), serviceName, provider, BIND(serviceName, provider)) if err == nil
 //@   ensures deposit_inv: err == nil && old(depositInv) ==> depositInv
+//@ end
+
+// Zero-height export preparation (service.PrepForZeroHeightGenesis): request fees and earned fees are paid back out of
+// the REQUEST escrow; the bindings and the deposit escrow that backs their recorded deposits are not part of it - the
+// bindings are exported with their deposits (C07 on the restarted chain: deposit escrow == sum of recorded deposits).
+//@ func Keeper.RefundServiceFees(ctx)
+//@   property C07
+//@   returns err
+//@   requires forall r:Bytes :: forall d:Str :: amt(get(requests, r).ServiceFee, d) >= 0
+//@   modifies bal
+//@   invariant #1 dep: forall d:Str :: bal(DEP, d) >= old(bal(DEP, d))
+//@   ensures deposit_escrow_kept: forall d:Str :: bal(DEP, d) >= old(bal(DEP, d))
+//@ end
+//@ func Keeper.RefundEarnedFees(ctx)
+//@   property C07
+//@   returns err
+//@   modifies bal
+//@   invariant #1 dep: forall d:Str :: bal(DEP, d) >= old(bal(DEP, d))
+//@   ensures deposit_escrow_kept: forall d:Str :: bal(DEP, d) >= old(bal(DEP, d))
+//@ end
+//@ func Keeper.ResetRequestContextsStateAndBatch(ctx)
+//@   property C07
+//@   returns err
+//@   modifies contexts
+//@ end
+//@ func Keeper.IterateRequestContexts(ctx, op)
+//@   inline
+//@   invariant #1 t: true
 //@ end
 
 // Genesis import of one binding (C12): the binding is filed under (service, provider) as listed, and EVERY imported
